@@ -6,6 +6,7 @@ CONSTANTS
   SwResetExitElemP = TRUE
   SwResetExitElemV = TRUE
   SwValStructArgPtr = TRUE
+  SwPtrFreshCtx = TRUE
   SwNestedSourceTag = TRUE
   SwEmptyRecordSourceTag = TRUE
   SwRunAllTests = TRUE
